@@ -2,7 +2,6 @@ CONSTANTS
   Mode = "wf"
   N = 3
   MaxEdges = 9
-  MaxBr = 0
   FailKinds = {"err","panic"}
   AllowDangling = TRUE
   Runs = 2
